@@ -75,4 +75,5 @@ func TestVerif(t *testing.T) {
 		return
 	}
 	runB(r)
+	runD(r)
 }
